@@ -30,7 +30,6 @@ func (s *State) clone() *State {
 	return n
 }
 
-
 func (s *State) cellOf(o *Obj) *Cell {
 	if c, ok := s.mem[o]; ok {
 		return c
